@@ -102,26 +102,39 @@ func (t *TransientData) RemoveListener(listener TransientListener) {
 	delete(t.listeners, listener)
 }
 
+// stopTimer stops and forgets a pending expiry of the given key.
+func (t *TransientData) stopTimer(key string) {
+	if old, found := t.timers[key]; found {
+		old.Stop()
+		delete(t.timers, key)
+	}
+}
+
 func (t *TransientData) updateTTL(key string, value interface{}, ttl time.Duration) {
 	if ttl <= 0 {
-		delete(t.timers, key)
+		t.stopTimer(key)
 	} else {
 		t.removeAfterTTL(key, value, ttl)
 	}
 }
 
 func (t *TransientData) removeAfterTTL(key string, value interface{}, ttl time.Duration) {
+	// The latest request on a key governs: a pending expiry of an earlier
+	// request must never remove the value.
+	t.stopTimer(key)
 	if ttl <= 0 {
 		return
 	}
 
-	if old, found := t.timers[key]; found {
-		old.Stop()
-	}
-
-	timer := time.AfterFunc(ttl, func() {
+	var timer *time.Timer
+	timer = time.AfterFunc(ttl, func() {
 		t.mu.Lock()
 		defer t.mu.Unlock()
+
+		if t.timers[key] != timer {
+			// Superseded while waiting for the lock ("Stop" came too late).
+			return
+		}
 
 		t.compareAndRemove(key, value)
 		if t.ttlCh != nil {
